@@ -34,7 +34,9 @@ CLAIMS = {
              "window without its last character - the forward scans of the prefilter / of fuzzy_match_greedy_ stop at the first completion and the backward scan keeps the window "
              "tight wherever it moves the start); at the fuzzy_indices entry point (companion file C02_Fuzzy) every path reports a valid witness: "
              "C02_fuzzy_entry_ascii / _unicode for needles of two or more characters (the contiguous shortcut, the matrix, and the greedy fallback when the scratch layout does not "
-             "fit; normalized needle, prefix preference off) and C02_fuzzy_entry_ascii_one / _unicode_one for one-character needles (the reported index is an occurrence); "
+             "fit; normalized needle, prefix preference off) and C02_fuzzy_entry_ascii_one / _unicode_one for one-character needles (the reported index is an occurrence); substring matching "
+             "reports the contiguous indices of an occurrence of the needle, starting at the position the matcher picked (companion file C02_Substring: "
+             "C02_substring_ascii_witness, C02_substring_unicode_witness, through the decision theorems of C05); "
              "failed matches carry no indices. The substring scan's window and the equality of the real back-pointer "
              "matrix with the recurrence are checked on the implementation's output for every case (prior vector content random, must be untouched)."),
     "C03": dict(
